@@ -330,7 +330,7 @@ def inventory_obligation(with_dtrait=False):
     try:
         open(os.path.join(d, "InventoryCheck.v"), "w").write(src)
         rc, out, err = sh(["coqc", "-noglob", "-Q", COQ, "Unimock", "InventoryCheck.v"], cwd=d, timeout=300)
-        if rc != 0 or len(rows) < (22 if with_dtrait else 11):
+        if rc != 0 or len(rows) < (23 if with_dtrait else 12):
             raise CheckFailure("InventoryCheck.inventory_ok: the model's method table (hinfo) no longer matches the MockFnInfo generated by the macro",
                                "\n".join(rows) + "\n" + (out + err)[-1500:])
     finally:
